@@ -145,7 +145,7 @@ def c_array(ctx, it, cfg):
 
 
 @REG.contract('ShapeFactor/wiring', [SF + ':ShapeFactor.%s' % f for f in ('__init__', 'setPrecipitateShape', 'setAspectRatio', '_scalarAspectRatioEquation', 'normalRadii',
-              'eqRadiusFactor', 'kineticFactor', 'thermoFactor', '_findRcritScalar')], configs=[dict(name=s, shape=s) for s in ('sphere', 'needle', 'plate', 'cubic')])
+              'eqRadiusFactor', 'kineticFactor', 'thermoFactor', '_findRcritScalar', 'description')], configs=[dict(name=s, shape=s) for s in ('sphere', 'needle', 'plate', 'cubic')])
 def c_wiring(ctx, it, cfg):
     S = it.get(SF, 'ShapeFactor')
     ar = real(ctx, 'ar', lambda v: v >= 1)
@@ -158,6 +158,16 @@ def c_wiring(ctx, it, cfg):
         ctx.prove('%s/is-the-descriptions-factor-at-the-aspect-ratio' % f, eq(getattr(s, f)(R), getattr(d, f)(ar)))
     Rs = real(ctx, 'Rsphere', lambda v: v > 0)
     ctx.prove('constant-aspect: critical radius = R_sphere * thermodynamic factor', eq(s.findRcrit(Rs, 10 * Rs), Rs * d.thermoFactor(ar)))
+    # the description object replaced through its public setter AFTER the aspect ratio was set: every factor and the critical radius follow the new description
+    calls = []
+    s.fields['_updateCallbacks'] = list(s.fields.get('_updateCallbacks', [])) + [lambda: calls.append(1)]
+    other = {'sphere': 'PlateDescription', 'needle': 'PlateDescription', 'plate': 'NeedleDescription', 'cubic': 'NeedleDescription'}[cfg['shape']]
+    d2 = it.get(SF, other)()
+    s.description = d2
+    ctx.prove('description-replaced/observers-notified', len(calls) == 1)
+    for f in ('eqRadiusFactor', 'kineticFactor', 'thermoFactor'):
+        ctx.prove('description-replaced/%s-is-the-new-descriptions-factor' % f, eq(getattr(s, f)(R), getattr(d2, f)(ar)))
+    ctx.prove('description-replaced/critical-radius-uses-the-new-description', eq(s.findRcrit(Rs, 10 * Rs), Rs * d2.thermoFactor(ar)))
 
 
 @REG.contract('_findRcrit/bisection', [SF + ':ShapeFactor._findRcrit'])
